@@ -211,14 +211,14 @@ Proof.
   unfold co_of_run. destruct (run_out r) as [res|e]; [reflexivity|]. destruct e; reflexivity.
 Qed.
 
-Lemma init_inv u b fs earlier cg w :
+Lemma init_inv u b fs earlier FS cg w :
   wf_values b = true ->
   (forall k v, In (k, v) (input_vertices b) -> in_ok k v) ->
   (forall k v, lookup k (cg_vals cg) = Some v -> In (k, v) (input_vertices b)) ->
   (forall k, In k (map fst (input_vertices b)) -> mem k (cg_vals cg) = true) ->
   Forall is_gen (cg_trace cg) ->
-  world_ok earlier w -> world_typed fs w ->
-  Inv u b fs earlier (init_state cg w).
+  world_ok earlier w -> world_typed FS w ->
+  Inv u b fs earlier FS (init_state cg w).
 Proof.
   intros Hwv Hin V1 V2 FG (W1 & W2 & W3) WT. unfold Inv, init_state. cbn [s_vals s_world s_trace s_nexec].
   constructor.
@@ -239,8 +239,8 @@ Proof.
   - exact V2.
 Qed.
 
-Lemma inv_world_ok u b fs earlier s :
-  Inv u b fs earlier s -> world_ok (earlier ++ s_trace s) (mkW (s_world s) (s_nexec s)).
+Lemma inv_world_ok u b fs earlier FS s :
+  Inv u b fs earlier FS s -> world_ok (earlier ++ s_trace s) (mkW (s_world s) (s_nexec s)).
 Proof.
   intros I. split; [|split]; cbn [w_once w_nexec].
   - apply (i_world I).
@@ -248,8 +248,8 @@ Proof.
   - apply (i_nexec I).
 Qed.
 
-Lemma inv_world_typed u b fs earlier s :
-  Inv u b fs earlier s -> world_typed fs (mkW (s_world s) (s_nexec s)).
+Lemma inv_world_typed u b fs earlier FS s :
+  Inv u b fs earlier FS s -> world_typed FS (mkW (s_world s) (s_nexec s)).
 Proof.
   intros I fid r f Q Hf Id. cbn [w_once] in Q. split.
   - eapply (i_typed I); eauto.
@@ -274,16 +274,19 @@ Definition C01_alt_typed_statement : Prop :=
     call u bh f d opts w t = Ok r ->
     world_typed (known_funcs f b) (run_world r).
 
-Lemma C01_alt_both :
-  forall u bh f d opts b w t r earlier,
+(* general form: the memo table is typed with respect to ANY well-formed
+   function list FS that contains the functions of this call *)
+Lemma C01_alt_general :
+  forall u bh f d opts b w t r earlier FS,
     build_args d opts = Some b -> wf_call u f b = true -> world_ok earlier w ->
     impl_acyclic u -> few_results f b = true ->
-    world_typed (known_funcs f b) w -> small_graph u f b t = true ->
+    wf_funcs FS = true -> (forall g0, In g0 (known_funcs f b) -> In g0 FS) ->
+    world_typed FS w -> small_graph u f b t = true ->
     call u bh f d opts w t = Ok r ->
     (c01_ok u f b earlier (co_of_run r) = true /\ world_ok (earlier ++ run_trace r) (run_world r)) /\
-    world_typed (known_funcs f b) (run_world r).
+    world_typed FS (run_world r).
 Proof.
-  intros u bh f d opts b w t r earlier BA WF WO ACY FEW WT SMALL CALL.
+  intros u bh f d opts b w t r earlier FS BA WF WO ACY FEW HFS INCL WT SMALL CALL.
   set (fs := known_funcs f b) in *.
   unfold wf_call in WF. rewrite !andb_true_iff in WF. destruct WF as [[[Hfs Hwv] _] _].
   fold fs in Hfs.
@@ -303,13 +306,13 @@ Proof.
   fold fs in Hg.
   assert (Hsmall : 20 * Z.of_nat (length (g_vertex_keys (cg_g cg))) < INF).
   { unfold small_graph in SMALL. rewrite CG in SMALL. apply Z.ltb_lt in SMALL. exact SMALL. }
-  assert (I0 : Inv u b fs earlier (init_state cg w)).
+  assert (I0 : Inv u b fs earlier FS (init_state cg w)).
   { apply init_inv; auto.
     - eapply build_args_in_ok; eauto.
     - rewrite TR. exact FG. }
   destruct (reach u bh (cg_g cg) false (fuel_of cg) (cg_target cg) (init_state cg w)) as [[s r1]| | |] eqn:RE;
     cbn [bind] in CALL; try discriminate.
-  pose proof (@reach_inv u bh (cg_g cg) b fs earlier Hfs Hg Hout ACY
+  pose proof (@reach_inv u bh (cg_g cg) b fs earlier FS Hfs HFS INCL Hg Hout ACY
                 (fun target cur s0 path bad s0' => @plan_spec u b fs (cg_g cg) Hg Hrch Hsmall target cur s0 path bad s0')
                 (fuel_of cg)) as RS.
   destruct (RS _ _ _ _ I0 RE) as (I1 & E1 & AM1).
@@ -321,12 +324,26 @@ Proof.
       - apply (inv_world_typed I1). }
   destruct (call_direct u bh false f am s) as [[res s2]| | |] eqn:CD; cbn [bind] in CALL; try discriminate.
   assert (Hf : In f fs) by (left; reflexivity).
-  destruct (@call_direct_inv u bh b fs earlier Hfs Hout ACY f am s res s2 I1 Hf (AM1 am eq_refl) CD) as (I2 & _ & _ & _).
+  destruct (@call_direct_inv u bh b fs earlier FS Hfs HFS INCL Hout ACY f am s res s2 I1 Hf (AM1 am eq_refl) CD) as (I2 & _ & _ & _).
   inversion CALL; subst r. cbn [run_trace run_world].
   split; [split|].
   - apply (i_ev I2).
   - apply (inv_world_ok I2).
   - apply (inv_world_typed I2).
+Qed.
+
+Lemma C01_alt_both :
+  forall u bh f d opts b w t r earlier,
+    build_args d opts = Some b -> wf_call u f b = true -> world_ok earlier w ->
+    impl_acyclic u -> few_results f b = true ->
+    world_typed (known_funcs f b) w -> small_graph u f b t = true ->
+    call u bh f d opts w t = Ok r ->
+    (c01_ok u f b earlier (co_of_run r) = true /\ world_ok (earlier ++ run_trace r) (run_world r)) /\
+    world_typed (known_funcs f b) (run_world r).
+Proof.
+  intros u bh f d opts b w t r earlier BA WF WO ACY FEW WT SMALL CALL.
+  apply C01_alt_general with (bh := bh) (d := d) (opts := opts) (w := w) (t := t); auto.
+  unfold wf_call in WF. rewrite !andb_true_iff in WF. destruct WF as [[[Hfs _] _] _]. exact Hfs.
 Qed.
 
 Lemma C01_alt_main : C01_alt_statement.
